@@ -72,10 +72,14 @@ def merge_shard_infos(updates: list[ShardListInfo], dataset_root: Path,
     # Check correctness of this implementation (O(1) check just to make sure we
     # do not forget anything).
     assert len(current_level) + len(deeper_updates) == len(updates)
-    # Since the ShardsList is saved in a file named shards_list.json there can
-    # be at most one update in this depth. We can ignore it since it has been
-    # loaded into root_shard_list.
-    assert len(current_level) <= 1
+    # Since the ShardsList is saved in a file named shards_list.json all
+    # updates in this depth describe the same file (there can be several, e.g.,
+    # the already known child together with an update after another writing
+    # session into the same directory). We can ignore them since the file has
+    # been loaded into root_shard_list.
+    assert len({
+        update.shard_list_info_file.file_path for update in current_level
+    }) <= 1
 
     # Move children of root_shard_list into deeper_updates to let recursion
     # merge everything.
